@@ -26,7 +26,7 @@ FLOORS = {"quick": {"conds": 8000, "nested": 3000, "coincident": 2000, "failed":
                        "preprocessed": 20000, "value_checks": 120000, "partial_values": 40000,
                        "spec_compared": 20000, "mixed_env_probes": 4}}
 PROFILE = {"weights": {"timeout": 4, "zero": 1, "wait": 2, "succeed": 2.5, "fail": 1.2, "spawn": 1, "join": 1,
-                       "interrupt": 0.6, "cb": 0.5, "cond": 5},
+                       "interrupt": 0.6, "cb": 0.5, "cond": 5, "chain": 0.4, "cbint": 0.1},
            "max_top": 5, "max_child_scripts": 3, "min_ev": 1, "max_ev": 3, "p_exact": 0.9, "p_raise": 0.15,
            "p_catch": 0.7, "cond_depth": 3}
 
@@ -42,10 +42,20 @@ def ncases(tier):
 def mixed_env_probe(ctx):
     K = kern.RealK.load()
     for processed in (False, True):
-        for mode in ("and", "or", "all_of", "any_of", "and-rev", "any_of-first", "nested"):
+        for mode in ("and", "or", "all_of", "any_of", "and-rev", "any_of-first", "nested", "foreign-subcondition",
+                     "foreign-subcondition-op", "foreign-subcondition-first", "foreign-plain-event", "foreign-process"):
             ctx.count("mixed_env_probes")
             e1, e2 = K.Environment(), K.Environment()
             a, b = e1.timeout(1), e2.timeout(1)
+            # a whole sub-condition / a plain event / a process of the other environment as the operand
+            sub = e2.all_of([b, e2.timeout(2)]) if mode.startswith("foreign-subcondition") else None
+            if mode == "foreign-plain-event":
+                sub = e2.event()
+                sub.succeed(1)
+            elif mode == "foreign-process":
+                def body(env):
+                    yield env.timeout(1)
+                sub = e2.process(body(e2))
             if processed:
                 e2.run()                 # the foreign operand has already been processed in its own environment
             try:
@@ -61,9 +71,16 @@ def mixed_env_probe(ctx):
                     e1.any_of([b, a])
                 elif mode == "nested":
                     e1.all_of([a, e1.any_of([e1.timeout(2), b])])
+                elif mode == "foreign-subcondition-op":
+                    a | sub
+                elif mode == "foreign-subcondition-first":
+                    e1.any_of([sub, a])
+                elif sub is not None:
+                    e1.all_of([a, sub])
                 else:
                     e1.any_of([a, b])
-                ctx.violation("mixed-environments-accepted" + ("[processed-operand]" if processed else ""),
+                ctx.violation("mixed-environments-accepted" + ("[processed-operand]" if processed else "")
+                              + (f"[{mode}]" if sub is not None else ""),
                               "a condition over events of two environments was not refused",
                               mode, {"probe": "mixed_env"})
             except ValueError:
@@ -78,6 +95,7 @@ def one_case(ctx, prog):
     mon = kern.Monitor(agenda=True, waiters=True, interrupts=False)
     r = kern.run_on(K, prog, mon=mon)
     viol = list(mon.finish())
+    kern.count_extras(ctx, r)
     out, st = kern.cond_closed_form(r)
     viol += out
     for e in r.tape:
